@@ -1,8 +1,11 @@
 (** C18 -- JSON and YAML copies of GDSII and LEF libraries are lossless.
     Layer 1 (this file): the serde data-model round trip, for the shapes GENERATED from
     gds21/src/data.rs and lef21/src/data.rs on every run (Gen/SerdeShapeGen.v).
-    The text layers (serde_json / serde_yaml printers and parsers, float printing) are
-    third-party code: covered by the correspondence run only (DESIGN.md C18, partial). *)
+    Layer 2 (second half of this file): the JSON text - a model of serde_json's pretty printer and parser and of
+    textwrap::dedent (Serde/JsonText.v, compared with the implementation on every run), the theorem that the parser
+    reads back what the printer wrote, and the composition with layer 1.  The decimal form of doubles (ryu,
+    serde_json's number parser) is an oracle hypothesis; the YAML text layer (serde_yaml) is third-party code
+    covered by the correspondence run only (DESIGN.md C18, partial). *)
 From Coq Require Import ZArith Bool List String.
 From L21 Require Import Serde.SerdeGeneric Serde.SerdeGeneric_proofs Gen.SerdeShapeGen.
 Import ListNotations.
@@ -86,6 +89,17 @@ From L21 Require Import Serde.JsonText Serde.JsonText_proofs.
 Theorem C18_json_unescape_escape : forall s rest,
   parse_str_body (escape_str s ++ String (chr 34) rest) = Some (s, rest).
 Proof. exact parse_str_body_escape. Qed.
+
+(** (7b) ... and every sequence of Unicode scalar values (what a Rust String can hold) is such a string and
+    reads back from its printed form; no hypothesis about doubles is involved. *)
+Theorem C18_json_string_scalars : forall fmt_f64 parse_f64 l,
+  Forall scalar_value l ->
+  json_parse_text parse_f64 (json_print fmt_f64 (SStr (utf8_of_scalars l))) = JOk (SStr (utf8_of_scalars l)).
+Proof.
+  intros fmt_f64 parse_f64 l Hl. apply json_parse_print.
+  - unfold sval_okb. cbn [sval_wfb]. rewrite (utf8_of_scalars_valid l Hl). reflexivity.
+  - intros b [].
+Qed.
 
 (** (8) Integer tokens: every i64 and every u64 reads back as itself. *)
 Theorem C18_json_int_token : forall parse_f64 z,
@@ -236,6 +250,7 @@ Print Assumptions C18_lef_lossy_fields.
 Print Assumptions C18_lef_roundtrip.
 Print Assumptions C18_skip_always_refuted.
 Print Assumptions C18_json_unescape_escape.
+Print Assumptions C18_json_string_scalars.
 Print Assumptions C18_json_int_token.
 Print Assumptions C18_json_parse_print.
 Print Assumptions C18_json_dedent_print.
